@@ -52,6 +52,8 @@ struct St {
     gating: HashSet<&'static str>,
     points: Vec<(ActorId, &'static str, Vec<i64>)>,
     log_points: bool,
+    /// fixed delay (µs) at named points, in modes Off and Perturb: widens one specific window
+    delays: HashMap<String, u64>,
 }
 
 pub struct Controller {
@@ -74,6 +76,7 @@ pub fn controller() -> Arc<Controller> {
                 gating: HashSet::new(),
                 points: Vec::new(),
                 log_points: false,
+                delays: HashMap::new(),
             }),
             cv: Condvar::new(),
             idle: std::sync::atomic::AtomicBool::new(true),
@@ -155,6 +158,13 @@ impl Controller {
             return;
         }
         let mut st = self.st.lock().unwrap();
+        if !st.delays.is_empty() && st.mode != Mode::Gate {
+            if let Some(us) = st.delays.get(name).copied() {
+                drop(st);
+                std::thread::sleep(Duration::from_micros(us));
+                st = self.st.lock().unwrap();
+            }
+        }
         match st.mode {
             Mode::Off => {
                 if st.log_points {
@@ -267,11 +277,26 @@ impl Controller {
         self.cv.notify_all();
     }
 
+    /// Every thread that reaches the point `name` sleeps `us` microseconds there (modes Off and
+    /// Perturb); `clear_point_delays` removes all such delays.
+    pub fn set_point_delay(&self, name: &str, us: u64) {
+        let mut st = self.st.lock().unwrap();
+        st.delays.insert(name.to_string(), us);
+        self.idle.store(false, std::sync::atomic::Ordering::SeqCst);
+    }
+    pub fn clear_point_delays(&self) {
+        let mut st = self.st.lock().unwrap();
+        st.delays.clear();
+        if st.mode == Mode::Off {
+            self.idle.store(!st.log_points, std::sync::atomic::Ordering::SeqCst);
+        }
+    }
+
     /// Stop gating / perturbing; every blocked actor continues freely.
     pub fn free_run(&self) {
         let mut st = self.st.lock().unwrap();
         st.mode = Mode::Off;
-        self.idle.store(!st.log_points, std::sync::atomic::Ordering::SeqCst);
+        self.idle.store(!st.log_points && st.delays.is_empty(), std::sync::atomic::Ordering::SeqCst);
         self.cv.notify_all();
     }
 
